@@ -3,6 +3,7 @@
 import json, os, subprocess
 HERE = os.path.dirname(os.path.dirname(os.path.abspath(__file__)))
 TB = "Go semantics as modelled by svcheck; go/types + go/ssa (x/tools v0.29.0); Fiat-Crypto leaf specifications; stdlib contracts; the mathematics cited in DESIGN.md 1.5"
+PM = "Proof modulo the trusted base: Fiat-Crypto leaf specifications (ring operations of F_m on Montgomery representatives), stdlib contracts, go/ssa, and the cited mathematics (DESIGN.md 1.5)."
 claims = {
  "C17": dict(level="proof", engine="E6 imports", technique="static analysis: import-closure / registry-linkage rule over go/packages + init-function SSA",
     text="Every (crypto.Hash).New(<const id>) reachable from the three hashing entry points must have a crypto.RegisterHash(<id>) call in an init function of a package inside the import closure of the package itself; decided on the import graph, which is the same for every importing program. Thorough repeats it over 7 GOOS/GOARCH/tag configurations.",
@@ -21,6 +22,18 @@ claims.update({
  "C19": dict(level="proof", engine="E5 trace on E1", technique="static analysis: secret-taint + arm-trace equality on an exact-heap abstract interpretation of Multiply (ladder unrolled by constant propagation)",
     text="Element.Multiply is interpreted abstractly with the scalar secret and the point public-unknown. Every branch whose condition depends on the scalar (256 ladder branches + the documented IsOne shortcut) is found by the analysis itself; both arms are run to the post-dominator and must enter the same sequence of internal/field and internal/scalar functions, nested calls included; secret-dependent indices, loop exits and external calls are violations; generated primitives must be single-block. The verdict covers all scalars because the scalar is a symbol of the analysis.",
     note="Granularity is function entry in the two internal packages, as the property states; micro-architectural timing is out of scope. Trusted: go/ssa.", ref="3 C19, 2 E5"),
+ "C01": dict(level="proof", engine="E1 absint (D-group)", technique="static analysis: abstract interpretation of Multiply over formal group sums with bit-atom coefficients; ladder branches joined; group operations found by their polynomial summaries",
+    text="The real Multiply code is interpreted with P and k symbolic. Group arithmetic functions are recognised by what they compute (RCB polynomials, as in C02) and applied to formal sums; the 256 ladder branches are joined, and the final receiver must be exactly [sum 2^i BIT(Canon k, i)]P; the k=1 shortcut, the nil scalar and the bit expansion are separate obligations. Symbolic in every scalar and point, so bit 255, k=n-1, k=0 and P=identity are all covered.",
+    note=PM, ref="3 C01"),
+ "C02": dict(level="proof", engine="E1 absint (D-poly)", technique="static analysis: polynomial constant propagation through the real formula code vs the Renes-Costello-Batina polynomials, under each aliasing",
+    text="Add/Subtract/Double are interpreted down to the Fiat primitives with symbolic projective coordinates; the receiver must equal the RCB complete addition/doubling polynomials up to a non-zero constant (or projectively modulo the curve equation), for distinct and aliased arguments; arguments unchanged, nil arguments no-ops, Negate correct on both arms of its guard, identity/base representations valid. A polynomial identity speaks for every operand pair and every projective scaling.",
+    note=PM+" Completeness of the formulas on all pairs of curve points is RCB's theorem.", ref="3 C02"),
+ "C05": dict(level="proof", engine="E1 absint (D-poly + D-int)", technique="static analysis: symbolic evaluation of Equal/IsIdentity to predicate normal form; limb-wise folds must normalise to whole-value equalities",
+    text="Equal must evaluate to exactly [X1Z2=X2Z1] AND [Y1Z2=Y2Z1] and IsIdentity to [Z=0]; the field-level Equals/IsZero must be whole-4-limb tests (analysed through the xor/or/non-zero bit idiom). Symmetry and scaling invariance follow from the normal form.",
+    note=PM, ref="3 C05"),
+ "C14": dict(level="proof", engine="E1 absint (D-int)", technique="static analysis: bit-level symbolic evaluation of Bits with the loop unrolled by constant propagation",
+    text="Every one of the 256 returned entries must equal BIT(Canon(k), i) for symbolic k; the written index set is computed by the analysis.",
+    note=PM, ref="3 C14"),
 })
 pending = {}
 ids = ["C%02d" % i for i in range(1, 20)]
